@@ -10,14 +10,17 @@ replays the history on it and judges every result the IMPLEMENTATION printed.
 import hashlib
 
 ID = "C08"
-RULE = ("op sequences (quick 10-150, thorough 10-400 ops) over <=6 names / 3 directory levels / <=4 handles "
+RULE = ("ASYNC cases (about 10 %): Keep writes of background flushes parked and released by explicit ops so that "
+        "flushes land at arbitrary later points (results compared, shapes not); otherwise: op sequences (quick 10-150, thorough 10-400 ops) over <=6 names / 3 directory levels / <=4 handles "
         "per file, write/truncate sizes 0..3 blocks, maxBlockSize in {1,2,3,4,7,8,16,64} (+ a few smoke cases "
         "at the production 64 MiB), explicit flush/sync sprinkled in, starting from empty or a generated "
         "manifest; non-trivial = at least one successful write or truncate and >= 5 ops; distinct = distinct case line")
 ASSUMPTIONS = [
-    "background flushes are observed at quiescence: the Keep stub's PutB is instant and the driver waits "
-    "(filenode.waitPrune on every file) after every op, so a flush goroutine always finishes right after the op "
-    "that started it; other interleavings are C13's subject",
+    "in ordinary cases background flushes are observed at quiescence: the Keep stub's PutB is instant and the "
+    "driver waits (filenode.waitPrune on every file) after every op, so a flush goroutine finishes right after the "
+    "op that started it and the segment shapes are deterministic; in ASYNC cases PutB is parked by `hold` and "
+    "completed by `release`, flushes land many ops later, and only the abstract results are compared (shapes then "
+    "depend on timing); truly concurrent operations are C13's subject",
     "truncate through a read-only handle is not in the property's error table and succeeds in model and code",
     "rename onto an existing directory fails whatever the source is (reading of 'existing target' / 'file renamed "
     "onto a directory'); a directory renamed over an existing file replaces it",
@@ -406,6 +409,9 @@ def judge(fs, op, res):
 
     if kind == "sync":
         return None if res == "ok" else "sync failed with " + res
+    if kind in ("hold", "release"):
+        # delaying / completing the Keep writes of background flushes is invisible in a plain filesystem
+        return None if res == "ok" else "driver op failed"
     return "unknown op " + kind
 
 
@@ -546,7 +552,7 @@ FLAGSETS = ["R", "W", "B", "Bc", "Wc", "Bct", "Wct", "Wa", "Ba", "Bca", "Wca", "
             "Rt", "Bx", "Rs", "N", "Nc", "Bcat", "Wcxa", "Rcd", "Bcd", "Ra", "Rct"]
 
 
-def _gen_case(rng, tier, maxb=None, nops=None, selfrename=False):
+def _gen_case(rng, tier, maxb=None, nops=None, selfrename=False, async_=False):
     maxb = maxb or rng.choice(BLOCKS)
     man = _gen_manifest(rng) if rng.random() < 0.4 else "-"
     fs = PlainFS()
@@ -599,9 +605,32 @@ def _gen_case(rng, tier, maxb=None, nops=None, selfrename=False):
         elif k in ("mkdir", "rename", "remove", "removeall"):
             judge(fs, op, "ok")
 
+    held = [False]
     while len(ops) < nops:
         r = rng.random()
         hs = open_handles()
+        if async_:
+            # ASYNC case: Keep writes of background flushes are parked (`hold`) and completed later
+            # (`release`), so flushes land while/after the files are truncated and rewritten
+            q = rng.random()
+            if not held[0] and q < 0.10:
+                emit("hold")
+                held[0] = True
+                continue
+            if held[0] and q < 0.08:
+                emit("release")
+                held[0] = False
+                continue
+            if held[0] and q < 0.22:
+                p = _path(rng, fs, "dir") if rng.random() < 0.3 else "@"
+                emit("flush,%s,%d" % (p, rng.choice([1, 1, 0])))
+                continue
+            if held[0] and q < 0.36 and hs:
+                h = rng.choice(hs)
+                cur = len(fs.h[h].ino.data)
+                emit("trunc,%s,%d" % (h, rng.randint(0, cur) if rng.random() < 0.8 else _size(rng, maxb, cur)))
+                sim(ops[-1])
+                continue
         if r < 0.16 or (not hs and r < 0.5):
             if len(fs.h) >= 10:
                 h = rng.choice(list(fs.h))
@@ -630,7 +659,9 @@ def _gen_case(rng, tier, maxb=None, nops=None, selfrename=False):
             h = rng.choice(hs)
             lim = min(maxb, 64)
             n = rng.choice([0, 1, lim, lim + 1, 2 * lim, 3 * lim + 2, rng.randint(0, 4 * lim)])
-            op = "%s,%s,%d" % (rng.choice(["read", "readn", "readn"]), h, n)
+            # (a single Read call returns one segment's worth: in ASYNC cases the segmentation depends on
+            # when the flushes land, so only read-until-n is used there)
+            op = "%s,%s,%d" % ("readn" if async_ else rng.choice(["read", "readn", "readn"]), h, n)
             emit(op)
             if op.startswith("read,"):
                 # position after a short read is implementation-defined: pin it down again
@@ -685,11 +716,22 @@ def _gen_case(rng, tier, maxb=None, nops=None, selfrename=False):
             emit("flush,%s,%d" % (p, rng.randint(0, 1)))
         else:
             emit("sync")
-    # read everything back at the end
-    tail = []
+    # read everything back at the end (after all delayed flushes have landed)
+    tail = ["release"] if async_ else []
     h = 900
-    for p in ("a", "b", "d/a"):
-        tail += ["open,%d,%s,R" % (h, p), "readn,%d,100000" % h] if fs.resolve(p) and not fs.resolve(p).is_dir else []
+    files = []
+
+    def walk_files(ino, p):
+        for n, k in sorted(ino.kids.items()):
+            q = (p + "/" + n) if p else n
+            if k.is_dir:
+                if q.count("/") < 4:
+                    walk_files(k, q)
+            else:
+                files.append(q)
+    walk_files(fs.root, "")
+    for p in files[:8]:
+        tail += ["open,%d,%s,R" % (h, p), "readn,%d,100000" % h, "hstat,%d" % h]
         h += 1
     return "fs %d %s %s" % (maxb, man, ";".join(ops + tail))
 
@@ -702,6 +744,9 @@ def generate(rng, tier):
     # smoke cases at the production block size (small data only)
     for _ in range(3 if tier == "quick" else 30):
         cases.append(_gen_case(rng, tier, maxb=PROD, nops=rng.randint(10, 60)))
+    # ASYNC cases: flush completions delayed across truncates/writes (no shapes compared, see driver)
+    for _ in range(60 if tier == "quick" else 1500):
+        cases.append(_gen_case(rng, tier, nops=rng.randint(15, 80), async_=True))
     # a few histories with many renames of a path onto itself (finding F13, fixed by 100856b)
     for _ in range(3 if tier == "quick" else 40):
         cases.append(_gen_case(rng, tier, nops=rng.randint(10, 40), selfrename=True))
